@@ -378,6 +378,36 @@ def seq_call(x):
     return {'frame': frames.get('final'), 'triplets': sorted((a, b, round(float(s), 7)) for a, b, s in res[0].triplet_scores if 'CONTROL-volume' not in (a, b))}
 
 
+def _enrich_sets(_):
+    """enrich_with_transformations called for successive batches with DIFFERENT sets of numeric columns (same preset): each call must transform exactly its own set"""
+    st = Stats()
+    C = cr()
+    import pandas as pd
+    frame = lambda: pd.DataFrame({'n': ['1', '2', '4', '9'], 'm': ['3', '1', '2', '8'], 'k': ['5', '5', '6', '1'], 'label': ['0', '1', '0', '1']})
+    sets = [{'n'}, {'m'}, {'n', 'm'}, {'k'}, set()]
+    for seq in itertools.permutations(range(len(sets) - 1), 3):
+        harness.reset_state()
+        for pos, i in enumerate(seq):
+            args = harness.make_args(transformers='minimal')
+            with warnings.catch_warnings():
+                warnings.simplefilter('ignore')
+                with np.errstate(all='ignore'):
+                    ok, out = safe(C.enrich_with_transformations, frame(), set(sets[i]), harness.RecLogger(), args)
+            st.count('evaluations')
+            st.count('enrich_calls')
+            if pos:
+                st.count('nontrivial')
+            case = {'kind': 'enrich_sets', 'seq': [sorted(sets[j]) for j in seq]}
+            if not ok:
+                st.violation(case, f'call {pos + 1} raised {out}', {'kind': 'exception', 'step': 'enrich'})
+                break
+            srcs = {str(c).split('_tr_')[0] for c in out.columns if '_tr_' in str(c)}
+            if srcs != sets[i]:
+                st.violation(case, f'call {pos + 1} with numeric columns {sorted(sets[i])} produced transformations of {sorted(srcs)}', {'kind': 'enrich_wrong_columns'})
+                break
+    return st
+
+
 def seq_menu(fl):
     return [(ri, tuple(fl)) for ri in range(len(SEQ_ROWS))]
 
@@ -390,7 +420,7 @@ def _seqdiff(fl):
 
 def _dispatch(item):
     k, job = item
-    return {'alone': _alone, 'tr': _transform_alone, 'batch': _batch, 'seqdiff': _seqdiff}[k](job)
+    return {'alone': _alone, 'tr': _transform_alone, 'batch': _batch, 'seqdiff': _seqdiff, 'enrich': _enrich_sets}[k](job)
 
 
 def run(ctx):
@@ -404,6 +434,7 @@ def run(ctx):
     else:
         jobs += [('batch', (2, lo, hi, ('MI-numba-randomized',))) for lo, hi in shards(18 ** 2, 48)]
         jobs += [('batch', (1, lo, hi, ('MI-numba-3mr',))) for lo, hi in shards(18, 6)]
+    jobs.append(('enrich', None))
     jobs += [('seqdiff', fl) for fl in (('transformers',), ('multivalue',), ('subfeatures',), ('interaction',), ('noise',), tuple(FLAGS))]
     for st in pmap(_dispatch, jobs):
         ctx.stats.merge(st)
@@ -415,6 +446,8 @@ def run(ctx):
 def eval_case(case):
     if case['kind'] == 'seqdiff':
         return seqdiff.replay(seq_call, seq_menu(tuple(case['flags'])), case['seq'])
+    if case['kind'] == 'enrich_sets':
+        return [v['what'] for v in _enrich_sets(None).violations]
     if case['kind'] == 'alone':
         fails, _ = judge_constructor(case['constructor'], case['columns'], case['rows'])
     else:
